@@ -9,12 +9,10 @@ Import ListNotations.
 Definition defs := (list (cid * cell) * list (rid * (option nat * val)))%type.
 
 Definition none_check (cl : cell) (v : val) : res val :=
-  if cl_cached cl then
-    match v with
-    | VNone => if cl_allow_none cl then Val v else Err KNone
-    | _ => Val v
-    end
-  else Val v.
+  match v with
+  | VNone => if cl_allow_none cl then Val v else Err KNone
+  | _ => Val v
+  end.
 
 Fixpoint sp_expr (fuel : nat) (D : defs) (inp : list (item * val)) (args : key) (locs : list val) (e : expr)
   {struct fuel} : res val :=
